@@ -883,7 +883,9 @@ static void exec_c06(const plan_t *p) { mode_c05 = 0; exec_common(p); }
 static const char *texts[] = { "", "a", "abc", "  padded  ", "Hello World", "x=1 y=2", "a+b*", "^ab.c$", "[0-9]+", "one two 'three four' five",
     "http://user:pw@host.example:8080/path/to?q=1", "mailto:foo@bar.com?Subject=Hi", "/just/a/path", "proto:rest", "a:b:c::d", "UPPER lower",
     "a(b", "[z-a]", "*x", "(?<n>a)|b{2,1}", "say \"hi there\" now", "it's open", "back\\slash\\ x", "tab\tsep\tx", "a,b;c", "   ", "\"\"", "user@host:99?x", "//h/p?q#f", ":::", "@", "?",
-    "ends in escape\\", "\\", "a,b\\", "open quote at end '", "x \\\"", "sep at end,", "\\,", "'", "line one\nline two", "\nstarts with a newline", "ends with a newline\n", "es\\cape in\\ side", "'q\\'uoted' \"d\\\"q\"", "http://host.example/", "a://b" };
+    "ends in escape\\", "\\", "a,b\\", "open quote at end '", "x \\\"", "sep at end,", "\\,", "'", "line one\nline two", "\nstarts with a newline", "ends with a newline\n", "es\\cape in\\ side", "'q\\'uoted' \"d\\\"q\"", "http://host.example/", "a://b",
+    /* components that are there but empty, next to ones that are not (a port of no digits behind a service the name service knows, a password of no characters, a user without a host) */
+    "http://host.example:/index.html", "http://h:", "a://u:p@b:?q", "http://user:@host:/", "mailto::", "http://:80", "http://@h", "proto://h:/p?", "http://u:@:" };
 static void gen_common(plan_t *p, rng_t *r, int c05)
 {
     int nops = rng_range(r, 4, (c05 ? 30 : 60) * sim_tier_scale()), kinds[NSLOT], ex[NSLOT] = { 0 }, focus = (int)rng_below(r, K_NKINDS);
